@@ -127,6 +127,19 @@ def _is_element(v):
     return isinstance(v, SurveyElement)
 
 
+class AttrView:
+    """A plain result object (InstanceInfo) whose attribute values are seen through view()."""
+
+    def __init__(self, obj):
+        object.__setattr__(self, "_o", obj)
+
+    def __getattr__(self, name):
+        return view(getattr(self._o, name))
+
+    def __repr__(self):
+        return f"View({self._o!r})"
+
+
 class SnapView(NodeView):
     """Entry-state snapshot of a node the call may modify (cloneNode needs an owner document; pyxform's nodes are detached)."""
 
@@ -190,6 +203,8 @@ def view(v):
         return NodeView(v)
     if _is_element(v):
         return RefView(v)
+    if type(v).__name__ == "InstanceInfo":
+        return AttrView(v)
     if isinstance(v, tuple) and any(_is_element(x) for x in v):
         return tuple(view(x) for x in v)
     if isinstance(v, types.GeneratorType):
@@ -208,7 +223,7 @@ def survey_of(e):
 def _unview(x):
     if isinstance(x, NodeView):
         return x._n
-    if isinstance(x, RecView | RefView):
+    if isinstance(x, RecView | RefView | AttrView):
         return x._o
     return x
 
@@ -303,6 +318,7 @@ MONITORED = [
     "pyxform.survey.Survey.xml_instance",
     "pyxform.survey.Survey.xml_descendent_bindings",
     "pyxform.survey_element.SurveyElement.has_common_repeat_parent",
+    "pyxform.survey.Survey._generate_static_instances",
     "pyxform.question.Question.xml_control",
     "pyxform.question.Question._validate_is_not_a_trigger",
     "pyxform.survey.Survey.get_trigger_values_for_question_name",
